@@ -255,30 +255,46 @@ func vfC37RunPlan(_ *testing.T, p vfC37Plan) vk.Result {
 		counts[ep]++
 	}
 	// ---- size bounds ----
+	// exact real-valued scale: min(ceil(minW*minRing)/minW, maxRing) in rationals
+	refScale := new(big.Rat).SetFrac(
+		new(big.Int).Mul(vfC37CeilDiv(uint64(minW)*p.Min, sum), new(big.Int).SetUint64(sum)),
+		new(big.Int).SetUint64(uint64(minW)))
+	maxRat := new(big.Rat).SetInt(new(big.Int).SetUint64(p.Max))
+	if refScale.Cmp(maxRat) >= 0 {
+		if refScale.Cmp(maxRat) > 0 {
+			res.Classes = append(res.Classes, "capped_at_max")
+		}
+		refScale.Set(maxRat)
+	}
+	var known *vk.Result
 	if uint64(L) < p.Min || uint64(L) > p.Max {
 		r := vk.Bad("ring has %d entries, bounds [%d, %d] (%d endpoints, weights min %d max %d sum %d)", L, p.Min, p.Max, n, minW, maxW, sum)
-		if uint64(L) == p.Max+1 {
+		// Signature c37.ring_size_max_plus_one (precise predicate): the exact
+		// scale equals max_ring_size, so exact arithmetic gives exactly max
+		// entries, and the ring has exactly one more (the float accumulation of
+		// scale*normalizedWeight ended above the integer scale). Everything else
+		// about this ring is still checked below; the finding is reported last.
+		if uint64(L) == p.Max+1 && refScale.Cmp(maxRat) == 0 {
 			r.Sig = "c37.ring_size_max_plus_one"
+			known = &r
+			res.Classes = append(res.Classes, "known:ring_size_max_plus_one")
+		} else {
+			return r
 		}
-		return r
 	}
 	// ---- proportionality up to rounding ----
 	// count_i versus L*w_i/sum: |diff| <= 1 + w_i/sum (L is within one of the
 	// real-valued scale); and versus the exactly computed scale when the ring
 	// size agrees with it: |diff| <= 1.
-	refScale := new(big.Rat).SetFrac(
-		new(big.Int).Mul(vfC37CeilDiv(uint64(minW)*p.Min, sum), new(big.Int).SetUint64(sum)),
-		new(big.Int).SetUint64(uint64(minW)))
-	if refScale.Cmp(new(big.Rat).SetInt(new(big.Int).SetUint64(p.Max))) > 0 {
-		refScale.SetInt(new(big.Int).SetUint64(p.Max))
-		res.Classes = append(res.Classes, "capped_at_max")
-	}
 	refL := vfC37CeilRat(refScale)
 	sameScale := refL.IsInt64() && refL.Int64() == int64(L)
 	if sameScale {
 		res.Classes = append(res.Classes, "size==ceil(exact scale)")
 	} else {
 		res.Classes = append(res.Classes, "size!=ceil(exact scale)")
+		if refL.IsInt64() && refL.Int64()+1 == int64(L) {
+			res.Classes = append(res.Classes, "size==ceil(exact scale)+1")
+		}
 	}
 	eps := big.NewRat(1, 1000000)
 	for i, e := range p.Eps {
@@ -455,6 +471,10 @@ func vfC37RunPlan(_ *testing.T, p vfC37Plan) vk.Result {
 	}
 	res.Steps = len(p.Picks)
 	res.Classes = vfC37Dedup(res.Classes)
+	if known != nil {
+		known.Classes = res.Classes
+		return *known
+	}
 	return res
 }
 
